@@ -57,6 +57,20 @@ func (er *EnumRef) mapValues(vals []string) ([]int32, error) {
 	return out, nil
 }
 
+// hasValue reports whether name is an option of the enum, written with or
+// without the enum's prefix (the same names EnumSchema.OptionByName finds).
+func (er *EnumRef) hasValue(name string) bool {
+	if _, ok := er.ValMap[name]; ok {
+		return true
+	}
+	if _, ok := er.ValMap[er.Prefix+name]; ok {
+		return true
+	}
+	// every compiled enum has the zero value <prefix>UNSPECIFIED, declared or not
+	zero := er.Prefix + "UNSPECIFIED"
+	return name == zero || er.Prefix+name == zero
+}
+
 // TypeRef is the summary of an exported type
 type TypeRef struct {
 	Package  string
